@@ -485,3 +485,40 @@ func (p *Prog) methodOf(n *types.Named, name string) *ssa.Function {
 	}
 	return nil
 }
+
+// retResults returns the values a Return yields, looking through go/ssa's result spill: in a
+// function with defers the results are stored into locals before `rundefers` and reloaded.
+func retResults(ret *ssa.Return) []ssa.Value {
+	out := make([]ssa.Value, len(ret.Results))
+	for i, res := range ret.Results {
+		out[i] = res
+		u, ok := res.(*ssa.UnOp)
+		if !ok || u.Op != token.MUL {
+			continue
+		}
+		a, ok := u.X.(*ssa.Alloc)
+		if !ok {
+			continue
+		}
+		// last store to a in the same block before the return; else, if the block has a single
+		// predecessor chain, walk up
+		b := ret.Block()
+		found := false
+		for depth := 0; depth < 4 && b != nil && !found; depth++ {
+			instrs := b.Instrs
+			for j := len(instrs) - 1; j >= 0; j-- {
+				if st, ok := instrs[j].(*ssa.Store); ok && st.Addr == ssa.Value(a) {
+					out[i] = st.Val
+					found = true
+					break
+				}
+			}
+			if len(b.Preds) == 1 {
+				b = b.Preds[0]
+			} else {
+				b = nil
+			}
+		}
+	}
+	return out
+}
